@@ -183,3 +183,4 @@ Definition tei_proc (st : proc) (line : list N) : option (eresp proc) :=
   let alive := match sr_status r with Running => true | _ => false end in
   Some {| er_state := {| p_eng := sr_eng r; p_alive := alive |}; er_out := sr_out r; er_closed := negb alive |}.
 End Compose.
+Arguments p_eng {SS}. Arguments p_alive {SS}.
